@@ -1,18 +1,20 @@
 (* C36 — correspondence and oracle. *)
 From Coq Require Import NArith List Bool.
-From Dolt Require Import Base.Str C36.Model C36.Spec.
+From Dolt Require Import Base.Str Gen.C36Consts C36.Model C36.Spec.
 Import ListNotations.
 Local Open Scope N_scope.
 
 Inductive cin :=
 | CStr (s : bytes)
 | CCsv (fs : list (option bytes))
-| CTable.
+| CTable
+| CBatch (n : N).
 
 Inductive obs :=
 | OStr (q h : bytes) (lex_ok : bool) (u : bytes)            (* quoted text, hex text, lexer verdict, lexed bytes *)
 | OCsv (text : bytes) (rows : list (list (option bytes))) (rerr : bool)
 | OTable (setup_ok sql_same ddl_same csv_same : bool)
+| OBatch (counts : list N) (nmissing extra : N) (perr : bool)   (* tuples per INSERT statement; rows of 1..n not exported; unexpected rows *)
 | OBad.
 
 Definition case := (cin * obs)%type.
@@ -28,8 +30,21 @@ Definition model_rows (text : bytes) : option (list (list (option bytes))) :=
   | None => None
   end.
 
+(* tuples per statement when n rows go through the batched writer; batch_size is regenerated from the Go source *)
+Definition model_counts (n : N) : list N :=
+  map (fun ch => N.of_nat (length ch)) (chunks (N.to_nat batch_size) (repeat tt (N.to_nat n))).
+Fixpoint nlist_eqb (a b : list N) : bool :=
+  match a, b with
+  | [], [] => true
+  | x :: a', y :: b' => (x =? y) && nlist_eqb a' b'
+  | _, _ => false
+  end.
+Definition nsum (l : list N) : N := fold_right N.add 0 l.
+
 Definition model_agrees (c : case) : bool :=
   match c with
+  | (CBatch n, OBatch counts nmissing extra perr) =>
+    nlist_eqb counts (model_counts n) && (nmissing =? 0) && (extra =? 0) && negb perr
   | (CStr s, OStr q h lex_ok u) =>
     beq_bytes q (sql_quote s) && beq_bytes h (hex_encode s)
     && match sql_unquote q with
@@ -49,6 +64,9 @@ Definition model_agrees (c : case) : bool :=
 (* the property on what the implementation did *)
 Definition oracle (c : case) : bool :=
   match c with
+  | (CBatch n, OBatch counts nmissing extra perr) =>
+    (* the exported statements hold exactly the n rows: none missing, none extra, n tuples in all *)
+    negb perr && (nmissing =? 0) && (extra =? 0) && (nsum counts =? n)
   | (CStr s, OStr q h lex_ok u) =>
     lex_ok && beq_bytes u s
     && match hex_decode h with Some d => beq_bytes d s | None => false end
